@@ -40,6 +40,14 @@ def final_spec(hist: dict) -> dict:
     sp = copy.deepcopy(hist['base'])
     for ph in hist['phases']:
         sp['ops'].extend(copy.deepcopy(ph.get('ops', [])))
+    # the specification proper: a call that was (meant to be) rejected is not part of it, and an object renamed after
+    # creation simply HAS its new name -- ops flagged 'fold' are folded away (their slots stay, so indices keep their meaning)
+    for i, op in enumerate(sp['ops']):
+        if not op.get('fold'):
+            continue
+        if op['op'] == 'setattr' and op['field'] == 'name':
+            sp['ops'][op['target']]['name'] = op['value']
+        sp['ops'][i] = {'op': 'noop', 'lf': op.get('lf', 0)}
     last = hist['phases'][-1]
     sp['write'] = copy.deepcopy(last.get('write', {}))
     for k in ('source', 'perm_seed', 'extra', 'struct_variant'):
